@@ -765,6 +765,9 @@ LIST_SERVICES = [
     ("a", (["--host", "c.example,d.example,e.example"], ["c.example", "d.example", "e.example"]), 0, [0], False, 0, "pause"),
     ("ab", (["--host", "c.example"], ["c.example"]), (["--path-prefix", "/deep/er/,/other"], ["/deep/er/", "/other"]), [1, 2, 0], False, 0, None),
     ("z.9", (["--host", "z.example"], ["z.example"]), 0, [0], False, 0, None),
+    # services below a path prefix of hosts whose root-path services have TLS on / off: `list` shows the TLS flag they inherit
+    ("secure-api", (["--host", "s.example"], ["s.example"]), (["--path-prefix", "/api"], ["/api"]), [2], False, 0, None),
+    ("z-api", (["--host", "z.example"], ["z.example"]), (["--path-prefix", "/api,/v2"], ["/api", "/v2"]), [1], False, 0, None),
     # not ASCII, and the widest cell of its column (name and host): columns are sized and padded in bytes
     ("\u00fcberwachung-der-dienste", (["--host", "b\u00fccher-und-caf\u00e9s.example"], ["b\u00fccher-und-caf\u00e9s.example"]), 0, [2], False, 0, None),
 ]
@@ -777,9 +780,20 @@ def scenario_list(s, rnd, tier):
     known = {}
     first = len(s.steps)
 
+    def effective(v):
+        """the TLS flag in force: a service that does not serve the root path follows the root-path service of its (first) host"""
+        d = v["deploy"]
+        is_root = lambda ps: not ps or any(x.rstrip("/") == "" for x in ps)      # "/", "//", ... normalise to the root path
+        if is_root(d["prefixes"]):
+            return v
+        h = d["hosts"][0] if d["hosts"] else ""
+        roots = [w for w in known.values() if is_root(w["deploy"]["prefixes"]) and
+                 (h in w["deploy"]["hosts"] or (not w["deploy"]["hosts"] and h == ""))]
+        return dict(v, deploy=dict(d, tls=bool(roots and roots[0]["deploy"]["tls"])))
+
     def snapshot(tag):
         st = s.run(["list"], "ok")
-        cases.append({"kind": "list", "tag": tag, "services": [dict(v) for v in known.values()], "stdout": st["stdout"],
+        cases.append({"kind": "list", "tag": tag, "services": [effective(v) for v in known.values()], "stdout": st["stdout"],
                       "exit": st["exit"], "commands": [x["argv"] for x in s.steps[first:]]})
 
     snapshot("empty")
